@@ -168,7 +168,7 @@ func ownersScenarios(seed uint64) []oscn {
 		// iteratorSingle (SkipLowerLevel, one cached segment), snapshot closed before the iterators
 		{"partial_compaction_cached", partial, ocat(
 			oround(sBatchBig(seed)), oround(sBatchTop(seed, 1)), oround(sBatchTop(seed, 2)),
-			[]ostep{sK("snap"), sIter(0, false, ""), sIter(0, true, ""), sH("seek", 1), sH("close", 0),
+			[]ostep{sK("snap"), sIter(0, false, ""), sIter(0, true, ""), sH("seek", 1), sH("seekfar", 2), sH("close", 0),
 				sH("seek", 1), sH("close", 0), sH("close", 0)},
 			closeAll)},
 		// 4: a child collection dropped and re-created while the persister is held at persister:begin of
@@ -427,6 +427,18 @@ func (or *ownersRun) step(s ostep) error {
 		hd := or.handles[s.h]
 		if err := hd.iter.SeekTo([]byte{}); err != nil && err != moss.ErrIteratorDone {
 			or.note("seek %d: %v", s.h, err)
+		}
+		or.handles = append(append(or.handles[:s.h:s.h], or.handles[s.h+1:]...), hd)
+	case "seekfar":
+		// a key behind every key of every level, one naive step only: the iterator re-creates its cursors
+		// while its lower-level iterator is alive, and the new lower-level iterator is done at once
+		hd := or.handles[s.h]
+		old := moss.DefaultNaiveSeekToMaxTries
+		moss.DefaultNaiveSeekToMaxTries = 1
+		err := hd.iter.SeekTo([]byte{0xff, 0xff, 0xff, 0xff})
+		moss.DefaultNaiveSeekToMaxTries = old
+		if err != nil && err != moss.ErrIteratorDone {
+			or.note("seekfar %d: %v", s.h, err)
 		}
 		or.handles = append(append(or.handles[:s.h:s.h], or.handles[s.h+1:]...), hd)
 	case "get":
